@@ -169,3 +169,8 @@ def _(m, callee, args):
 def _(m, callee, args):
     msg = deref_all(m, args[1])
     return synerr(''.join(chr(c) if isinstance(c, int) else '?' for c in msg.cs) if isinstance(msg, RStr) else str(msg))
+
+
+@model(r' as Spanned>::span$')
+def _(m, callee, args):
+    return ('span',)
